@@ -207,14 +207,18 @@ class Run:
         exe = os.path.join(self.dir, "drive_race" if race else "drive")
         if os.path.exists(exe):
             return exe
-        hdir = HARNESS
-        if REPO != "/repo":
-            hdir = os.path.join(self.dir, "harness")
-            if not os.path.exists(hdir):
-                shutil.copytree(HARNESS, hdir, ignore=lambda d, names: [n for n in names if d == HARNESS and n in ("drive", "drive_race")])
-                gm = open(os.path.join(hdir, "go.mod")).read().replace("=> /repo", "=> " + REPO)
-                open(os.path.join(hdir, "go.mod"), "w").write(gm)
+        # the harness is copied into the run directory: the registry of the tree's exported functions (funcs_gen.go) is
+        # generated from the source of the tree under test for every build, and concurrent checks must not share it
+        hdir = os.path.join(self.dir, "harness")
+        if not os.path.exists(hdir):
+            shutil.copytree(HARNESS, hdir, ignore=lambda d, names: [n for n in names if d == HARNESS and n in ("drive", "drive_race")])
+            gm = open(os.path.join(hdir, "go.mod")).read().replace("=> /repo", "=> " + REPO)
+            open(os.path.join(hdir, "go.mod"), "w").write(gm)
         shutil.copy(os.path.join(REPO, "go.sum"), os.path.join(hdir, "go.sum"))
+        code, out, wall = run([GO, "run", "./cmd/genfuncs", REPO, "github.com/go-i2p/common", os.path.join(hdir, "cmd", "drive", "funcs_gen.go")],
+                              300, cwd=hdir, env=GOENV)
+        if code != 0:
+            raise MachineryError("genfuncs failed\n" + out[-2000:])
         cmd = [GO, "build", "-tags", "verif"] + (["-race"] if race else []) + ["-o", exe, "./cmd/drive"]
         code, out, wall = run(cmd, 900, cwd=hdir, env=GOENV)
         if code != 0:
